@@ -171,7 +171,7 @@ def arities(names):
     return 1, max(1, min(k, 3))
 
 
-def sweep_calls(funcs, subjects=("S", "M")):
+def sweep_calls(funcs, subjects=("S", "M"), max_args=3):
     """-> [(call id, source, function name)]"""
     calls = []
     fill = dict(FILLERS)
@@ -180,6 +180,7 @@ def sweep_calls(funcs, subjects=("S", "M")):
         if short in BY_DESIGN:
             continue
         lo, hi = arities(names)
+        hi = min(hi, max_args)
         for x in subjects:
             done = set()
             for n in range(lo, hi + 1):
@@ -263,3 +264,47 @@ def execute(groups, workers=16):
         return res, len(jobs)
     finally:
         shutil.rmtree(root, ignore_errors=True)
+
+
+_ADDR = None
+
+
+def norm(outcome):
+    """an outcome as it is compared: host exception texts without memory addresses"""
+    global _ADDR
+    if _ADDR is None:
+        import re
+        _ADDR = re.compile(r"0x[0-9a-fA-F]{6,}")
+    kind, text, printed = outcome
+    if kind == "host":
+        text = _ADDR.sub("0x?", text)
+    return (kind, text, printed)
+
+
+def compare(group, runs):
+    """runs: {(order, seed, legacy): (prelude outcome, {cid: outcome})} -> ({cid: [(legacy, {outcome: [run keys]})]} for the
+    calls whose outcome is not the same in all runs of one mode, [cids not judged because a run timed out], number of
+    (call, run) evaluations)"""
+    varying = {}
+    skipped = []
+    n = 0
+    for legacy in (False, True):
+        sel = sorted((k, v) for k, v in runs.items() if k[2] == legacy)
+        if len(sel) < 2:
+            continue
+        for cid, _ in [("@prelude", None)] + list(group["calls"]):
+            distinct = {}
+            timeout = False
+            for rk, (pre, res) in sel:
+                o = pre if cid == "@prelude" else res.get(cid)
+                if o is None:
+                    o = ("missing", "", "")
+                if o[0] == "timeout":
+                    timeout = True
+                n += 1
+                distinct.setdefault(norm(o), []).append(rk)
+            if timeout:
+                skipped.append(cid)
+            elif len(distinct) > 1:
+                varying.setdefault(cid, []).append((legacy, distinct))
+    return varying, sorted(set(skipped)), n
